@@ -77,6 +77,9 @@ VStr(s, syn) == Val("str", FALSE, 0, s, syn)
 VNull  == Val("null", FALSE, 0, "", {})
 VFloat == Val("float", FALSE, 0, "", {})
 VList  == Val("list", FALSE, 0, "", {})
+\* a value whose TEXT is not JSON at all (a string with a raw control character in it, RFC 8259 section 7): the whole
+\* configuration text is then not a configuration, whichever way it is given (--config or --config_file)
+VNotJson == Val("notjson", FALSE, 0, "", {})
 
 IsBool(v) == v.t = "bool"
 OneOf(v, S) == v.t = "str" /\ v.s \in S
@@ -131,6 +134,9 @@ CatSeq ==
          Set("general", "document_lang", "\"en-u\\u017f\"", VStr("en-u(long s)", {}), "invalid"),
          Set("general", "document_lang", "\"\\u0131t-IT\"", VStr("(dotless i)t-IT", {}), "invalid"),
          Set("general", "document_lang", "5", VInt(5), "invalid"),
+         Set("general", "document_lang", "\"fr\t\"", VNotJson, "invalid"),
+         Set("imsc_writer", "fps", "\"30\t/1\"", VNotJson, "invalid"),
+         Set("stl_reader", "font_stack", "\"Arial\n\"", VNotJson, "invalid"),
          Set("imsc_writer", "time_format", "\"clock_time\"", VStr("clock_time", {}), "valid"),
          Set("imsc_writer", "time_format", "\"frames\"", VStr("frames", {}), "valid"),
          Set("imsc_writer", "time_format", "\"clock_time_with_frames\"", VStr("clock_time_with_frames", {}), "valid"),
@@ -299,7 +305,9 @@ ConfigJob(i) ==
     [] m = "srt_writer"  -> Job("convert", "ttml", "-", ".ttml", "-", ".srt", 0, i, <<>>)
     [] m = "vtt_writer"  -> Job("convert", "ttml", "-", ".ttml", "-", ".vtt", 0, i, <<>>)
     [] m = "lcd"         -> Job("convert", "ttml", "-", ".ttml", "-", ".ttml", 0, i, <<"lcd">>)
-ConfigJobs == { ConfigJob(i) : i \in 1..NCat }
+\* the same setting given in a configuration FILE instead: the two routes take the same configurations
+ViaFile(j) == [j EXCEPT !.cfgfile = j.inline, !.inline = 0]
+ConfigJobs == { ConfigJob(i) : i \in 1..NCat } \cup { ViaFile(ConfigJob(i)) : i \in 1..NCat }
                 \cup { Job("convert", "ttml", "-", ".ttml", "-", ".ttml", 0, Named(k), <<>>) : k \in {6, 7} }
 
 \* precedence of the file, language override, filter lists, sub-commands
